@@ -159,6 +159,16 @@ CHECKS = {
             "n_jobs.",
             "Trusted: TLC; tile facts computed by the driver from the generated genome; pyfaidx / pyBigWig; in_window = 8.",
             "DESIGN.md §5 C17"),
+    "C19": (["Seqlets", "SeqletsMC", "SeqletOps", "Seqlet_Trace"],
+            "step-shaped TLA+ model of the iterative arg-max/suppress extractor (Seqlets.tla) model-checked with TLC (safety, "
+            "progress, liveness) with tie branching; every track replayed into _iterative_extract_seqlets; rows returned by "
+            "recursive_seqlets / tfmodisco_seqlets decided by Seqlet_Trace",
+            "TLC checks, for every short track, that seqlet starts are never closer than the suppression radius, that only "
+            "candidate positions are chosen and that the loop terminates; the model's leaves are the admissible outputs of the real "
+            "extractor. Every row of both public callers on random integer-valued tracks is checked for span, length bounds before "
+            "flanks, exact attribution sum, p-value threshold and order, suppression distance, and an unmodified input.",
+            "Trusted: TLC; integer tracks (exact sums); p-values abstracted to threshold test and rank; raises are counted, not judged.",
+            "DESIGN.md §5 C19"),
 }
 
 ALL = ["C%02d" % i for i in range(1, 21)]
